@@ -245,6 +245,47 @@ fn vc16_attrs_decode() {
     leak(d);
 }
 
+// @h name=vc16_attrs_decode_turn tier=experimental timeout=1500
+// @fn decode_stun_message, parse_xor_address
+// @bound 76-byte Allocate error response laid out per RFC 5389/5766: comprehension-optional SOFTWARE(5 bytes + 3 pad), XOR-RELAYED-ADDRESS (IPv6), XOR-PEER-ADDRESS (IPv4), ERROR-CODE; symbolic transaction id, addresses, ports, error class/number, pad bytes
+// @oracle the attribute after a 5-byte value starts at the next 4-byte boundary; relayed = IPv6 un-XORed with cookie||transaction id (taken from the message header), peer = IPv4 un-XORed with the cookie, each in its own field and none in xor_mapped_address; error code = class*100 + number
+#[kani::proof]
+#[kani::unwind(18)]
+fn vc16_attrs_decode_turn() {
+    let mut b: [u8; 76] = kani::any();
+    b[0] = 0x01; b[1] = 0x13; b[2] = 0; b[3] = 56;
+    b[20] = 0x80; b[21] = 0x22; b[22] = 0; b[23] = 5;
+    b[32] = 0; b[33] = 0x16; b[34] = 0; b[35] = 20; b[37] = 2;
+    b[56] = 0; b[57] = 0x12; b[58] = 0; b[59] = 8; b[61] = 1;
+    b[68] = 0; b[69] = 0x09; b[70] = 0; b[71] = 4;
+    kani::assume(b[74] <= 7 && b[75] <= 99);
+    let d = match decode_stun_message(&b) { Ok(d) => d, Err(e) => { leak(e); assert!(false, "well-formed message rejected"); return; } };
+    assert!(d.class == StunClass::ErrorResponse && d.method == StunMethod::Allocate);
+    let i: usize = kani::any();
+    kani::assume(i < 16);
+    assert!(i >= 12 || d.transaction_id[i] == b[8 + i]);
+    match d.xor_relayed_address.as_ref() {
+        Some(SocketAddr::V6(v6)) => {
+            assert!(v6.port() == be16(&b, 38) ^ 0x2112);
+            let mask = if i < 4 { 0x2112A442u32.to_be_bytes()[i] } else { b[8 + i - 4] };
+            assert!(v6.ip().octets()[i] == b[40 + i] ^ mask);
+        }
+        _ => assert!(false, "XOR-RELAYED-ADDRESS (IPv6) not decoded"),
+    }
+    match d.xor_peer_address.as_ref() {
+        Some(SocketAddr::V4(v4)) => {
+            assert!(v4.port() == be16(&b, 62) ^ 0x2112);
+            assert!(u32::from_be_bytes(v4.ip().octets()) == be32(&b, 64) ^ 0x2112A442);
+        }
+        _ => assert!(false, "XOR-PEER-ADDRESS (IPv4) not decoded"),
+    }
+    assert!(d.error_code == Some(b[74] as u16 * 100 + b[75] as u16));
+    assert!(d.xor_mapped_address.is_none() && d.data.is_none() && !d.use_candidate && d.lifetime.is_none());
+    assert!(d.realm.is_none() && d.nonce.is_none());
+    kani::cover!(b[74] == 4 && b[75] == 38, "438 stale nonce");
+    leak(d);
+}
+
 // @h name=vc16_decode_trailing_empty tier=quick timeout=420
 // @fn decode_stun_message
 // @bound 32-byte Binding request: PRIORITY (4 symbolic bytes) followed by a zero-length attribute that ends exactly at the end of the message: USE-CANDIDATE, or DATA with length 0 (symbolic choice); symbolic transaction id
